@@ -238,6 +238,46 @@ def explore(rep, cfg, do_paths, max_keys, report):
     return nP, applied, len(seen)
 
 
+def move_traces():
+    """A child moved from one parent to ANOTHER one that holds the very same map object (siblings below a node that declared the
+    prefix after they were attached): with and without a dropped prefix, detached first or merely carrying a parent pointer
+    (constructor argument), appended or inserted by position.  TLC judges every step (TraceForest, clause ns)."""
+    from harness.world import World
+    fields = ("name", "kids", "ns", "content", "tail", "prefix", "attrs", "extras", "store")
+    out = []
+    for declare_when in ("after-attach", "before-attach"):
+        for how in ("attached-dropped-detached", "attached-detached", "parent-argument-only", "attached-own-binding-detached"):
+            for index in (-1, 0, 1):
+                w = World()
+                for nm in ("r", "a", "b", "c", "d"):
+                    w.new(nm)
+                tr = {"init": w.pi(fields), "events": [], "desc": {"case": "move", "declare": declare_when, "how": how, "index": index}}
+
+                def do(name, args):
+                    ok, ret, exc = w.apply(name, args)
+                    tr["events"].append({"op": name, "args": args, "ok": ok, "ret": ret if isinstance(ret, int) else 0, "post": w.pi(fields)})
+                if declare_when == "before-attach":
+                    do("add_namespace", [1, "x", "u"])
+                do("add_child", [1, 2, -1])
+                do("add_child", [1, 3, -1])
+                do("add_child", [3, 5, -1])            # the receiving parent already has a child
+                if declare_when == "after-attach":
+                    do("add_namespace", [1, "x", "u"])
+                if how == "parent-argument-only":
+                    w.n(4).parent = w.n(2)             # as Node("c", parent=a) leaves it: a pointer, no attachment
+                    tr["events"].append({"op": "resync", "args": [], "ok": True, "ret": 0, "post": w.pi(fields)})
+                else:
+                    do("add_child", [2, 4, -1])
+                    if how == "attached-dropped-detached":
+                        do("remove_namespace", [4, "x"])
+                    if how == "attached-own-binding-detached":
+                        do("add_namespace", [4, "y", "u/"])
+                    do("remove_child", [2, 4])
+                do("add_child", [3, 4, index])
+                out.append(tr)
+    return out
+
+
 def run(rep, tier, seed):
     def report(key, det, replay):
         rep.violation(f"{PID}:{key}", det[:500], replay)
@@ -268,6 +308,7 @@ def run(rep, tier, seed):
     rnd = random.Random(seed)
     jobs = [(seed * 7919 + i, rnd.randint(6, 10), nst) for i in range(ntr)]
     traces = [t for chunk in parallel(w_histories, jobs) for t in chunk]
+    traces += move_traces()
     rejects, _ = judge_traces(traces, PID, label="histories")
     nev = sum(len(t["events"]) for t in traces)
     rep.cov["traces_validated_against_impl"] += len(traces)
